@@ -206,6 +206,10 @@ func emitScan(id string, content []byte, sched []schedStep, final string, nameAr
 	if !sameOutcome(o, one) {
 		same = "0"
 	}
+	// the very same case again: nothing may depend on earlier calls in the process (C06)
+	if again := runScan(content, sched, final, nameArgs); !sameOutcome(o, again) || again.reads != o.reads {
+		same = "R"
+	}
 	na := "0"
 	if nameArgs {
 		na = "1"
@@ -233,7 +237,21 @@ func unhexs(s string) []byte {
 // ---- schedules ----
 
 func genSched(r *rand.Rand, n int) []schedStep {
-	switch r.Intn(7) {
+	switch r.Intn(8) {
+	case 7: // many zero-length reads in total, never 100 in a row (legal for an io.Reader)
+		if n > 6000 {
+			return nil
+		}
+		var out []schedStep
+		for tot := 0; tot < n+10; {
+			for z := r.Intn(4); z > 0; z-- {
+				out = append(out, schedStep{0, false})
+			}
+			k := 1 + r.Intn(12)
+			out = append(out, schedStep{k, r.Intn(2) == 0})
+			tot += k
+		}
+		return out
 	case 0:
 		return nil
 	case 1: // one byte at a time (bounded to keep the model fast)
@@ -286,6 +304,7 @@ var lookAlikes = []string{
 	"Previous write at 0x2 by goroutine 2:", "Goroutine 3 (running) created at:", "...additional frames elided...",
 	"[signal SIGSEGV: segmentation violation code=0x1 addr=0x0 pc=0x0]", "goroutine running on other thread; stack unavailable",
 	"=================== ", " ==================", "fatal error: all goroutines are asleep - deadlock!",
+	"...", "... output truncated ...", "...retrying in 5s...", "..frames elided...", "... 3 frames elided ... ",
 }
 
 // junkSafe: lines that can neither start a dump nor be swallowed as a race header
@@ -485,6 +504,16 @@ func opScan(r *rand.Rand, n int, tier, mix string) {
 						d = g.race()
 					}
 					b.WriteString(printRace(d))
+				} else if r.Intn(4) == 0 {
+					// no blank line after the dump: it ends at the first line that cannot continue it
+					// (never a line that a frame could be followed by: func-like, created-by, elided marker, header)
+					v := g.variant()
+					v.Indent, v.BlankIndents = "", false
+					b.WriteString(printDump(g.dump(1+r.Intn(2), 4), v, false))
+					regions = append(regions, fmt.Sprintf("%d:%d", st, b.Len()))
+					b.WriteString([]string{"...", "... output truncated ...", "exit status 2", "...retrying in 5s...", "PASS", strings.Repeat("y", 20000)}[r.Intn(6)] + "\n")
+					b.WriteString(genJunk(r, r.Intn(3), true, crlf))
+					continue
 				} else {
 					b.WriteString(printDump(g.dump(1+r.Intn(3), 6), g.variant(), true))
 				}
